@@ -730,10 +730,23 @@ impl Evaluator<'_, '_, '_, '_> {
                 if *as_percent {
                     let nb_variables = nb_elements as f64;
 
-                    let v = value as f64 / 100. * nb_variables;
+                    let mut v = (value as f64 / 100. * nb_variables).ceil();
+                    // libyara tests `found / nb * 100 >= percent` in f64. Pick the smallest
+                    // number of matches that passes this exact test: rounding makes it differ
+                    // from the ceiling on some values (28% of 25: 7 is enough, not 8).
+                    if nb_elements > 0 && (0..=100).contains(&value) {
+                        let percent = value as f64;
+                        let passes = |k: f64| (k / nb_variables) * 100. >= percent;
+                        while v > 0. && passes(v - 1.) {
+                            v -= 1.;
+                        }
+                        while v <= nb_variables && !passes(v) {
+                            v += 1.;
+                        }
+                    }
                     #[allow(clippy::cast_possible_truncation)]
                     {
-                        value = v.ceil() as i64;
+                        value = v as i64;
                     }
                 } else if value == 0 {
                     // Special case: 0 without percent is treated as None
